@@ -60,6 +60,7 @@ func c05Inputs() []inputs.Input {
 		I("tar", 100, 0, 1), I("sample", 0, 0, 1), I("sample", 0, 0, 10),
 		I("corpus", 0, 0, 3), I("corpus", 0, 0, 57), I("corpus", 300, 1, 111), I("corpus", 40, 2, 160),
 		I("text", 10000, 0, 0), I("json", 20000, 0, 0), I("random", 70000, 0, 0), I("csv_big", 2000, 0, 5),
+		I("text_nul", 9<<20+77, 8<<20+2, 0),
 	}
 }
 
@@ -73,6 +74,10 @@ func (c *c05) build(seed uint64, tier string) {
 		n := len(in.Bytes())
 		seen := map[uint32]bool{}
 		ls := []int{0, 1, 2, n - 1, n, n + 1, 64, 3072, 2 * n}
+		if n > 8<<20 {
+			// the one input above 8 MiB: limits it exceeds by a lot, by a little, and that exceed it
+			ls = []int{0, 8<<20 + 1, n + 1}
+		}
 		// limits far above the input: buffer strategies that depend on the limit's magnitude
 		switch ii % 6 {
 		case 1:
@@ -112,11 +117,16 @@ func (c *c05) build(seed uint64, tier string) {
 		}
 		// offsets 0..m inclusive; beyond-the-header offsets m+1.. are sampled: they must never surface
 		var offs []int
-		if p.L > 1<<20 && m > 8 {
+		if (p.L > 1<<20 || n > 1<<20) && m > 8 {
 			// a limit-sized allocation per call is costly up here: head, tail and a few offsets in between
 			r := core.NewRand(core.Mix(seed, 0xb16c05, uint64(pi)))
 			pick := map[int]bool{0: true, 1: true, m - 1: true, m: true}
-			for i := 0; i < 5; i++ {
+			extra := 5
+			if n > 8<<20 {
+				extra = 1 // every operation moves megabytes
+				delete(pick, 1)
+			}
+			for i := 0; i < extra; i++ {
 				pick[r.Range(2, m-1)] = true
 			}
 			for k := 0; k <= m; k++ {
